@@ -906,7 +906,7 @@ class Interp:
             a, b = fl.get('start'), fl.get('end')
             if a and b and a[0] == 'lit' and b[0] == 'lit' and isinstance(a[1], int) and isinstance(b[1], int) and b[1] - a[1] <= 64:
                 el = [('lit', x) for x in range(a[1], b[1] + (1 if itv[1].endswith('RangeInclusive') else 0))]
-        elif itv[0] == 'lit' and isinstance(itv[1], bytes) and len(itv[1]) <= 64:
+        elif itv[0] == 'lit' and isinstance(itv[1], bytes) and len(itv[1]) <= 128:
             el = [('lit', x) for x in itv[1]]
         elif self.exact_seqs and itv[0] in ('vec', 'array') and len(itv[1]) <= 64 and ground(itv):
             el = list(itv[1])           # a vector / array all of whose elements are known values
@@ -1887,7 +1887,54 @@ class Interp:
             return [('maybe', st)]
         if k == 'PGuard':
             return [('maybe' if kind == 'yes' else kind, s) for kind, s in self.match(p['pat'], v, st)]
+        if k == 'PSlice':
+            return self.match_slice(p, v, st)
         return [('maybe', st)]
+
+    # ------------------------------------------------------------------ slice patterns
+    # `[p0, .., pk]` matches a sequence of exactly k+1 elements, element i against p_i; `[p0, .., pk, mid @ .., q0, .., qm]` matches a
+    # sequence of at least k+m+2 elements: the first k+1 against the p_i, the last m+1 against the q_j, `mid` is bound to what lies
+    # between (Rust reference, slice patterns).  Nothing else is tested: a length mismatch is "no match", never a panic.
+    def slice_elem(self, v, i, from_end=False):
+        """Element i of the sequence value v counted from its front (from its back: i = 0 is the last) - v is known to have it."""
+        if self.domain is not None and hasattr(self.domain, 'elem'):
+            r = self.domain.elem(v, i, from_end)
+            if r is not None:
+                return r
+        if v[0] == 'subslice' and not from_end:
+            return self.slice_elem(v[1], v[2] + i)
+        if v[0] == 'subslice':
+            return self.slice_elem(v[1], v[3] + i, True)
+        return ('index', v, ('lit', i)) if not from_end else ('index', v, bin_term('Sub', seq_len_term(v), ('lit', i + 1)))
+
+    def match_slice(self, p, v, st):
+        before, mid, after = p.get('before') or [], p.get('mid'), p.get('after') or []
+        nb, na = len(before), len(after)
+        es = seq_elems(v, self.exact_seqs)
+        if es is not None:
+            # every element is known (literal octets, an array expression): the length decides, the elements are bound by position
+            elems, mk = es
+            n = len(elems)
+            if (mid is None and n != nb + na) or n < nb + na:
+                return [('no', st)]
+            pats, vals = list(before), list(elems[:nb])
+            if mid is not None:
+                pats.append(mid); vals.append(mk(elems[nb:n - na]))
+            pats += list(after); vals += list(elems[n - na:])
+            return self.match_seq(pats, vals, st)
+        need = nb + na
+        L = seq_len_term(v)
+        atom = ('bin', 'Ge', L, ('lit', need)) if mid is not None else ('bin', 'Eq', L, ('lit', need))
+        kn = True if (mid is not None and need == 0) else length_decides(st.pc, v, atom)
+        if kn is False:
+            return [('no', st)]
+        s = st if kn else st.assume(atom, True)
+        pats = list(before) + ([mid] if mid is not None else []) + list(after)
+        vals = [self.slice_elem(v, i) for i in range(nb)] + ([subslice_term(v, nb, na)] if mid is not None else []) + [self.slice_elem(v, na - 1 - j, True) for j in range(na)]
+        r = self.match_seq(pats, vals, s)
+        if kn:
+            return r
+        return [('maybe' if kind == 'yes' else kind, s2) if kind != 'no' else (kind, st) for kind, s2 in r]
 
     def adt_is_enum(self, p):
         d = p.get('def', '')
@@ -1939,6 +1986,94 @@ def range_bounds(p):
     if vals[1] is not None and 'Included' not in (p.get('end') or ''):
         vals[1] -= 1
     return tuple(vals)
+
+SLICE_LEN = 'core::slice::<impl [T]>::len'
+
+def seq_len_term(v):
+    """the number of elements of the sequence value v, as the term `v.len()` evaluates to (a pure observer: no site)"""
+    if v[0] == 'subslice':
+        return bin_term('Sub', seq_len_term(v[1]), ('lit', v[2] + v[3])) if v[2] + v[3] else seq_len_term(v[1])
+    return ('call', SLICE_LEN, (v,), None)
+
+def subslice_term(v, lo, back):
+    """v without its first `lo` and its last `back` elements - v is known to have that many"""
+    if lo == 0 and back == 0:
+        return v
+    if v[0] == 'subslice':
+        return ('subslice', v[1], v[2] + lo, v[3] + back)
+    return ('subslice', v, lo, back)
+
+def seq_elems(v, exact_vecs=False):
+    """(elements, constructor of a sequence value of the same kind from a list of elements) of a sequence value all of whose elements
+    are listed - literal octets, an array expression, with `exact_vecs` a vector whose elements are all known -, else None"""
+    if v[0] == 'lit' and isinstance(v[1], bytes):
+        return [('lit', x) for x in v[1]], (lambda es: ('lit', bytes(x[1] for x in es)))
+    if v[0] == 'array':
+        return list(v[1]), (lambda es: ('array', tuple(es)))
+    if exact_vecs and v[0] == 'vec' and ground(v):
+        return list(v[1]), (lambda es: ('array', tuple(es)))
+    return None
+
+def length_facts(pc, v):
+    """What a path condition says about the number n of elements of the sequence value v: (lo, hi, excluded) with lo <= n <= hi
+    (hi None: unbounded) and n not in excluded; None when the facts contradict each other.  Read: comparisons of `len(v)` /
+    `input_len(v)` with an integer literal, and `is_empty(v)`."""
+    lo, hi, excl = 0, None, set()
+    def is_len(t):
+        return t[0] == 'call' and t[1].rsplit('::', 1)[-1] in ('len', 'input_len') and len(t[2]) == 1 and t[2][0] == v
+    def le(k):
+        nonlocal hi
+        hi = k if hi is None else min(hi, k)
+    def ge(k):
+        nonlocal lo
+        lo = max(lo, k)
+    for a, t in pc:
+        while a[0] == 'not':
+            a, t = a[1], not t
+        if a[0] == 'call' and a[1].rsplit('::', 1)[-1] == 'is_empty' and len(a[2]) == 1 and a[2][0] == v:
+            a = ('bin', 'Eq', seq_len_term(v), ('lit', 0))
+        if a[0] != 'bin' or len(a) != 4 or a[1] not in ('Eq', 'Ne', 'Lt', 'Le', 'Gt', 'Ge'):
+            continue
+        op, x, y = a[1], a[2], a[3]
+        if is_len(y) and x[0] == 'lit':
+            x, y, op = y, x, {'Lt': 'Gt', 'Gt': 'Lt', 'Le': 'Ge', 'Ge': 'Le'}.get(op, op)
+        if not (is_len(x) and y[0] == 'lit' and isinstance(y[1], int) and not isinstance(y[1], bool)):
+            continue
+        k = y[1]
+        if not t:
+            op = {'Eq': 'Ne', 'Ne': 'Eq', 'Lt': 'Ge', 'Ge': 'Lt', 'Le': 'Gt', 'Gt': 'Le'}[op]
+        if op == 'Eq':
+            ge(k); le(k)
+        elif op == 'Ne':
+            excl.add(k)
+        elif op == 'Lt':
+            le(k - 1)
+        elif op == 'Le':
+            le(k)
+        elif op == 'Gt':
+            ge(k + 1)
+        else:
+            ge(k)
+    while lo in excl:
+        lo += 1
+    while hi is not None and hi in excl and hi >= lo:
+        hi -= 1
+    if hi is not None and hi < lo:
+        return None
+    return lo, hi, excl
+
+def length_decides(pc, v, atom):
+    """True / False when the path condition's facts about the length of v decide `len(v) == k` / `len(v) >= k`, else None"""
+    fl = length_facts(pc, v)
+    if fl is None:
+        return None          # (a contradictory path: nothing is decided here; whoever enumerates it finds it dead)
+    lo, hi, excl = fl
+    k = atom[3][1]
+    if atom[1] == 'Ge':
+        return True if lo >= k else False if (hi is not None and hi < k) else None
+    if k < lo or (hi is not None and k > hi) or k in excl:
+        return False
+    return True if hi == lo == k else None
 
 def tuple_elem(v, i):
     if v[0] == 'tuple' and i < len(v[1]):
@@ -2536,7 +2671,8 @@ def builtin_summary(I, cal, args, node, st):
             return r
     if name == 'try_from' and len(args) == 1 and args[0][0] == 'lit' and isinstance(args[0][1], int) and not isinstance(args[0][1], bool):
         # checked integer conversion of a known number: Ok(n) when the target type holds it, Err otherwise
-        m_ = re.match(r'<(\w+) as core::convert::TryFrom<(\w+)>>::try_from', cal) or re.match(r'core::convert::num::<impl core::convert::TryFrom<(\w+)> for (\w+)>::try_from', cal)
+        # (std spreads these impls over several modules - core::convert::num, ..::ptr_try_from_impls -: the impl header names the types)
+        m_ = re.match(r'<(\w+) as core::convert::TryFrom<(\w+)>>::try_from', cal) or re.match(r'core::convert::num::(?:\w+::)*<impl core::convert::TryFrom<(\w+)> for (\w+)>::try_from', cal)
         if m_:
             tgt = m_.group(1) if cal.startswith('<') else m_.group(2)
             rng = INT_RANGE.get(tgt)
@@ -2585,6 +2721,12 @@ def builtin_summary(I, cal, args, node, st):
             list(args[0][1]) if args[0][0] in ('array', 'vec') else None
         if xs is not None and all(ordinal(e) is not None and ordinal(e)[0] == ordinal(args[1])[0] for e in xs):
             return [Out('val', ('lit', any(ordinal(e) == ordinal(args[1]) for e in xs)), st)]
+    if cal == 'core::mem::size_of' and not args:
+        # size_of::<T>() of a fixed-width integer type is its width in octets (usize / isize: 8 on the 64-bit target the facts are
+        # extracted for - the same assumption as INT_RANGE); any other type stays an opaque call
+        m_ = re.match(r'\[([iu](?:8|16|32|64|128|size))\]$', node.get('targs') or '')          # (the call's generic arguments as the compiler resolved them)
+        if m_:
+            return [Out('val', ('lit', {'8': 1, '16': 2, '32': 4, '64': 8, '128': 16, 'size': 8}[m_.group(1)[1:]]), st)]
     if name in ('is_empty', 'len') and args and args[0][0] == 'lit' and isinstance(args[0][1], (bytes, str)):
         return [Out('val', ('lit', len(args[0][1]) == 0 if name == 'is_empty' else len(args[0][1])), st)]
     if name == 'input_len' and 'nom::traits::InputLength' in cal and len(args) == 1 and args[0][0] == 'lit' and isinstance(args[0][1], (bytes, str)):
@@ -2610,6 +2752,28 @@ def builtin_summary(I, cal, args, node, st):
         bs = args[0][1]
         k = 0 if name == 'first' else len(bs) - 1 if name == 'last' else args[1][1]
         return [Out('val', ('ctor', 'Some', (('lit', bs[k]),)) if 0 <= k < len(bs) else ('ctor', 'None', ()), st)]
+    if cal.startswith('core::slice::<impl [T]>::') and name in ('split_at', 'split_at_checked', 'split_first', 'split_last') and args and seq_elems(args[0]) is not None \
+            and (name in ('split_first', 'split_last') or (len(args) == 2 and args[1][0] == 'lit' and isinstance(args[1][1], int) and not isinstance(args[1][1], bool))):
+        # a slice whose elements are all listed, cut in two: split_at(k) = (s[..k], s[k..]) and panics for k > len (split_at_checked:
+        # None there); split_first() = Some((s[0], s[1..])), split_last() = Some((s[len-1], s[..len-1])), None for the empty slice
+        es, mk = seq_elems(args[0])
+        if name in ('split_at', 'split_at_checked'):
+            k = args[1][1]
+            if 0 <= k <= len(es):
+                pair = ('tuple', (mk(es[:k]), mk(es[k:])))
+                return [Out('val', pair if name == 'split_at' else ('ctor', 'Some', (pair,)), st)]
+            return [Out('div', UNIT, st.event(('panic', cal, tuple(args), node)))] if name == 'split_at' else [Out('val', ('ctor', 'None', ()), st)]
+        if not es:
+            return [Out('val', ('ctor', 'None', ()), st)]
+        return [Out('val', ('ctor', 'Some', (('tuple', (es[0], mk(es[1:])) if name == 'split_first' else (es[-1], mk(es[:-1]))),)), st)]
+    if name == 'get' and cal.startswith('core::slice::<impl [T]>::') and len(args) == 2 and seq_elems(args[0]) is not None and args[1][0] == 'struct' \
+            and args[1][1].rsplit('::', 1)[-1] in ('RangeFrom', 'RangeTo', 'Range', 'RangeFull') and all(v[0] == 'lit' and isinstance(v[1], int) for _n, v in args[1][2]):
+        # slice.get(a..b) on a slice whose elements are all listed: Some(s[a..b]) when a <= b <= len, None otherwise
+        es, mk = seq_elems(args[0])
+        fl = dict(args[1][2])
+        lo = fl['start'][1] if 'start' in fl else 0
+        hi = fl['end'][1] if 'end' in fl else len(es)
+        return [Out('val', ('ctor', 'Some', (mk(es[lo:hi]),)) if 0 <= lo <= hi <= len(es) else ('ctor', 'None', ()), st)]
     if name in ('is_empty', 'len') and args and args[0][0] == 'array':
         return [Out('val', ('lit', len(args[0][1]) == 0 if name == 'is_empty' else len(args[0][1])), st)]
     if name in ('min', 'max') and len(args) == 2 and all(a[0] == 'lit' and isinstance(a[1], int) and not isinstance(a[1], bool) for a in args) \
